@@ -19,6 +19,8 @@ debug: 4
 enforce: verif_REALLOC
 backend: sat
 timeout: 120
+native: mem
+native_includes: mem.c
 */
 /*@unit
 name: macro.d4.malloc
@@ -27,6 +29,8 @@ debug: 4
 enforce: verif_MALLOC
 backend: sat
 timeout: 120
+native: mem
+native_includes: mem.c
 */
 /*@unit
 name: macro.d4.calloc
@@ -35,6 +39,8 @@ debug: 4
 enforce: verif_CALLOC
 backend: z3,sat
 timeout: 120
+native: mem
+native_includes: mem.c
 */
 /*@unit
 name: macro.d4.free
@@ -43,6 +49,8 @@ debug: 4
 enforce: verif_FREE
 backend: sat
 timeout: 120
+native: mem
+native_includes: mem.c
 */
 /*@unit
 name: macro.null0.d4
@@ -51,6 +59,8 @@ debug: 4
 enforce: verif_REALLOC
 backend: sat
 timeout: 120
+native: mem
+native_includes: mem.c
 */
 /*@unit
 name: macro.d5.map
@@ -69,6 +79,8 @@ enforce: spifmem_realloc
 replace: memrec_add_var, memrec_rem_var, memrec_chg_var
 backend: sat
 timeout: 200
+native: mem
+native_includes: mem.c
 */
 /*@unit
 name: macro.null0.d5.on
@@ -80,6 +92,8 @@ replace: memrec_add_var, memrec_rem_var, memrec_chg_var
 backend: sat
 timeout: 280
 mem: 14
+native: mem
+native_includes: mem.c
 */
 #include "vprelude.h"
 #include "env_memhash.h"
